@@ -64,11 +64,56 @@ def gen_c01_sites():
     rel = 'include/AIToolbox/Bandit/Policies/Utils/QGreedyPolicyWrapper.hpp'
     s = E.strip_comments(E.read(rel))
     body = s[s.index('QGreedyPolicyWrapper<V, Gen>::getPolicy'):]
-    _order(body, [r'double\s+max\s*=\s*q_\[0\]\s*;\s*unsigned\s+count\s*=\s*1\s*;', r'for\s*\(\s*size_t\s+aa\s*=\s*1\s*;',
-                  r'if\s*\(\s*checkEqualGeneral\s*\(\s*val\s*,\s*max\s*\)\s*\)\s*\+\+count\s*;', r'else\s+if\s*\(\s*val\s*>\s*max\s*\)',
-                  r'max\s*=\s*val\s*;', r'count\s*=\s*1\s*;', r'for\s*\(\s*size_t\s+aa\s*=\s*0\s*;',
-                  r'if\s*\(\s*checkEqualGeneral\s*\(\s*q_\[aa\]\s*,\s*max\s*\)\s*\)', r'p\[aa\]\s*=\s*1\.0\s*/\s*count\s*;', r'p\[aa\]\s*=\s*0\.0\s*;'], rel)
-    rows.append(('greedySites', 'List String', '["init", "scanFrom1", "tieGeneral", "greater", "setMax", "reset", "fillFrom0", "tieGeneral2", "recip", "zero"]', rel, 1))
+    body = body[:body.index('};')] if '};' in body else body
+    scan = [r'double\s+max\s*=\s*q_\[0\]\s*;\s*unsigned\s+count\s*=\s*1\s*;', r'for\s*\(\s*size_t\s+aa\s*=\s*1\s*;',
+            r'if\s*\(\s*checkEqualGeneral\s*\(\s*val\s*,\s*max\s*\)\s*\)\s*\+\+count\s*;', r'else\s+if\s*\(\s*val\s*>\s*max\s*\)',
+            r'max\s*=\s*val\s*;', r'count\s*=\s*1\s*;', r'for\s*\(\s*size_t\s+aa\s*=\s*0\s*;',
+            r'if\s*\(\s*checkEqualGeneral\s*\(\s*q_\[aa\]\s*,\s*max\s*\)\s*\)', r'p\[aa\]\s*=\s*1\.0\s*/\s*count\s*;', r'p\[aa\]\s*=\s*0\.0\s*;']
+    # repaired shape (fixes/C01-3): the true maximum first, then the count of entries equal to it, then the fill
+    fixed = [r'double\s+max\s*=\s*q_\[0\]\s*;', r'for\s*\(\s*size_t\s+aa\s*=\s*1\s*;[^;]*;\s*\+\+aa\s*\)\s*if\s*\(\s*q_\[aa\]\s*>\s*max\s*\)\s*max\s*=\s*q_\[aa\]\s*;',
+             r'unsigned\s+count\s*=\s*0\s*;', r'for\s*\(\s*size_t\s+aa\s*=\s*0\s*;[^;]*;\s*\+\+aa\s*\)\s*if\s*\(\s*checkEqualGeneral\s*\(\s*q_\[aa\]\s*,\s*max\s*\)\s*\)\s*\+\+count\s*;',
+             r'for\s*\(\s*size_t\s+aa\s*=\s*0\s*;', r'if\s*\(\s*checkEqualGeneral\s*\(\s*q_\[aa\]\s*,\s*max\s*\)\s*\)',
+             r'p\[aa\]\s*=\s*1\.0\s*/\s*count\s*;', r'p\[aa\]\s*=\s*0\.0\s*;']
+    try:
+        _order(body, scan, rel); true_max_first = False
+        # nothing else may touch max/count in the as-found shape
+        if len(re.findall(r'\bmax\s*=', body)) != 2 or len(re.findall(r'\bcount\s*=', body)) != 2 or len(re.findall(r'\+\+count', body)) != 1:
+            raise E.ExtractError(f'unexpected extra assignment to max/count in {rel} getPolicy')
+    except E.ExtractError as e1:
+        try:
+            _order(body, fixed, rel); true_max_first = True
+        except E.ExtractError:
+            raise e1
+        if 'count = 1' in body or len(re.findall(r'\bmax\s*=', body)) != 2 or len(re.findall(r'\+\+count', body)) != 1 or 'checkEqualSmall' in body:
+            raise E.ExtractError(f'repaired getPolicy shape in {rel} has extra assignments')
+    rows.append(('greedyTrueMaxFirst', 'Bool', 'true' if true_max_first else 'false', rel, 1))
+    rows.append(('greedySites', 'List String', '["init", "trueMax", "count0", "countTies", "fillFrom0", "tieGeneral2", "recip", "zero"]' if true_max_first else
+                 '["init", "scanFrom1", "tieGeneral", "greater", "setMax", "reset", "fillFrom0", "tieGeneral2", "recip", "zero"]', rel, 1))
+    # MDP::QGreedyPolicy::getPolicy: one wrapper per row of q_, written into the same row of the result
+    rel2 = 'src/MDP/Policies/QGreedyPolicy.cpp'
+    s2 = E.strip_comments(E.read(rel2))
+    b2 = s2[s2.index('QGreedyPolicy::getPolicy'):]
+    _order(b2, [r'Matrix2D\s+retval\s*\(\s*S\s*,\s*A\s*\)\s*;', r'for\s*\(\s*size_t\s+s\s*=\s*0\s*;\s*s\s*<\s*S\s*;\s*\+\+s\s*\)',
+                r'Bandit::QGreedyPolicyWrapper\s*\(\s*q_\.row\(s\)\s*,\s*bestActions_\s*,\s*rand_\s*\)\s*;', r'wrap\.getPolicy\s*\(\s*retval\.row\(s\)\s*\)\s*;',
+                r'return\s+retval\s*;'], rel2)
+    m3 = re.search(r'bestActions_\s*\(\s*getA\(\)\s*\)', s2)
+    if not m3: raise E.ExtractError('QGreedyPolicy constructor no longer sizes bestActions_ (the wrapper loop bound buffer_.size()) to A')
+    rows.append(('greedyTableSites', 'List String', '["retvalSA", "rowLoop", "wrapRow", "fillRow", "ret", "bufferIsA"]', rel2, 1))
+    # Utils/Core.hpp: the bodies of the tolerance predicates the model hard-codes (constants come from Gen/Constants)
+    rel3 = 'include/AIToolbox/Utils/Core.hpp'
+    s3 = E.strip_comments(E.read(rel3))
+    _order(s3, [r'inline\s+bool\s+checkEqualSmall\s*\(\s*const\s+double\s+a\s*,\s*const\s+double\s+b\s*\)\s*\{\s*return\s*\(\s*std::fabs\s*\(\s*a\s*-\s*b\s*\)\s*<=\s*equalToleranceSmall\s*\)\s*;\s*\}',
+                r'inline\s+bool\s+checkDifferentSmall\s*\(\s*const\s+double\s+a\s*,\s*const\s+double\s+b\s*\)\s*\{\s*return\s*!checkEqualSmall\s*\(\s*a\s*,\s*b\s*\)\s*;\s*\}',
+                r'inline\s+bool\s+checkEqualGeneral\s*\(\s*const\s+double\s+a\s*,\s*const\s+double\s+b\s*\)\s*\{\s*if\s*\(\s*checkEqualSmall\s*\(\s*a\s*,\s*b\s*\)\s*\)\s*return\s+true\s*;\s*'
+                r'return\s*\(\s*std::fabs\s*\(\s*a\s*-\s*b\s*\)\s*<=\s*std::min\s*\(\s*std::fabs\s*\(\s*a\s*\)\s*,\s*std::fabs\s*\(\s*b\s*\)\s*\)\s*\*\s*equalToleranceGeneral\s*\)\s*;\s*\}'], rel3)
+    rows.append(('toleranceSites', 'List String', '["smallAbsLe", "differentIsNotEqual", "generalSmallOrRelMin"]', rel3, 1))
+    # src/MDP/Utils.cpp: the zero-initialised tables every solver starts from, and bellmanOperator as a wrapper of the in-place form
+    rel4 = 'src/MDP/Utils.cpp'
+    s4 = E.strip_comments(E.read(rel4))
+    _order(s4, [r'QFunction\s+makeQFunction\s*\([^)]*\)\s*\{\s*auto\s+retval\s*=\s*QFunction\s*\(\s*S\s*,\s*A\s*\)\s*;\s*retval\.setZero\(\)\s*;\s*return\s+retval\s*;',
+                r'ValueFunction\s+makeValueFunction\s*\([^)]*\)\s*\{\s*auto\s+values\s*=\s*Values\s*\(\s*S\s*\)\s*;\s*values\.setZero\(\)\s*;\s*return\s*\{\s*values\s*,\s*Actions\s*\(\s*S\s*,\s*0\s*\)\s*\}\s*;',
+                r'ValueFunction\s+bellmanOperator\s*\([^)]*\)\s*\{\s*const\s+auto\s+S\s*=\s*q\.rows\(\)\s*;\s*ValueFunction\s+vf\s*\{\s*Values\s*\(\s*S\s*\)\s*,\s*Actions\s*\(\s*S\s*\)\s*\}\s*;\s*bellmanOperatorInplace\s*\(\s*q\s*,\s*&vf\s*\)\s*;\s*return\s+vf\s*;'], rel4)
+    rows.append(('makeSites', 'List String', '["makeQZero", "makeVFZeroActionsS", "bellmanOperatorWrapsInplace"]', rel4, 1))
     rel = 'include/AIToolbox/MDP/Algorithms/PolicyIteration.hpp'
     s = E.strip_comments(E.read(rel))
     body = s[s.index('PolicyIteration::operator()'):]
